@@ -214,13 +214,19 @@ CLAIMED = {
  "C01": dict(
    text="Closure theorem api_program_wf: every value returned by any term of public-API calls "
         "(constructor, >>, @, dagger, forward/reversed slices, indexing, interchange, each yielded "
-        "normalisation step, normal_form, swap, permutation, cups, caps, transpose, functor application) "
+        "normalisation step, normal_form, every yielded foliation step, the slices of foliation(), swap, "
+        "permutation, cups, caps, transpose, functor application) "
         "is well-typed (layer view chains from dom to cod, boxes/offsets agree with it), by induction on "
-        "the program, plus constructor_accepts_iff_well_typed and refusal iff theorems, all about the "
-        "Gallina model; the model is tied to /repo by differential testing of ~16k programs (quick) in the "
-        "monoidal and rigid classes comparing full outcomes incl. layers, and an independent range-checked "
-        "re-scan oracle on every returned diagram; the DISCOPY_VERIF hook re-scans diagrams built inside "
-        "the library.",
+        "the program, plus constructor_accepts_iff_well_typed and refusal iff theorems; foliation: the slices "
+        "compose from dom to cod (so d.foliation() is well-typed), flattening gives the last yielded step back, "
+        "every slice is one non-empty layer of side-by-side boxes, foliate never fails on a well-typed diagram, "
+        "depth is bounded by the number of boxes, the denotation is unchanged in every strict monoidal category "
+        "(12 theorems), all about the "
+        "Gallina model; the model is tied to /repo by differential testing of ~19k programs (quick) in the "
+        "monoidal and rigid classes comparing full outcomes incl. layers, an independent range-checked "
+        "re-scan oracle on every returned diagram, independent foliation / flatten / depth oracles, an oracle-only "
+        "tour of the other classes (tensor, circuit, zx, cat, biclosed near-misses, operands of different type "
+        "families); the DISCOPY_VERIF hook re-scans diagrams built inside the library.",
    design="6/C01", technique="Coq proof (induction over API programs) + extracted-model correspondence + re-scan oracle"),
  "C10": dict(
    text="Theorems about the Gallina model of monoidal.Diagram.swap/permutation (wire map of the "
